@@ -73,6 +73,17 @@ def compareVal {α} (o : SortOptions) (cmp : α → α → Ordering) : Option α
   | some _, none => if o.nullsFirst then .gt else .lt
   | some a, some b => if o.descending then (cmp a b).swap else cmp a b
 
+/-- lexicographic comparison of two lists under an element comparison; a proper prefix is
+smaller (the order of list values) -/
+def lexCompare {α} (cmp : α → α → Ordering) : List α → List α → Ordering
+  | [], [] => .eq
+  | [], _ :: _ => .lt
+  | _ :: _, [] => .gt
+  | a :: as, b :: bs => (cmp a b).then (lexCompare cmp as bs)
+
+/-- reverse an ordering when `descending` -/
+def swapIf (d : Bool) (r : Ordering) : Ordering := if d then r.swap else r
+
 def compareField (o : SortOptions) (t : FTy) (a b : FVal) : Ordering :=
   compareVal o (compareScalar t) a b
 
